@@ -169,6 +169,20 @@ pub fn feelimit_policy(network: bitcoin::Network) -> lightning_signer::policy::s
     policy
 }
 
+/// Set by `node explore --policy maxinv`: the table of approved invoices / keysends holds MAX_INVOICES entries
+/// and the payment velocity control has a (never reached) finite limit, so that what it has counted is part of
+/// the observed state: a request refused because the table is full must leave it as it was.
+pub static TRACK_VC: std::sync::atomic::AtomicBool = std::sync::atomic::AtomicBool::new(false);
+pub const MAX_INVOICES: usize = 1;
+pub fn maxinv_policy(network: bitcoin::Network) -> lightning_signer::policy::simple_validator::SimplePolicy {
+    use lightning_signer::util::velocity::{VelocityControlIntervalType, VelocityControlSpec};
+    let mut policy = lightning_signer::policy::simple_validator::make_default_simple_policy(network);
+    policy.max_invoices = MAX_INVOICES;
+    policy.global_velocity_control =
+        VelocityControlSpec { limit_msat: 1_000_000_000, interval_type: VelocityControlIntervalType::Hourly };
+    policy
+}
+
 /// A policy whose payment velocity limit is exactly one "v1" amount (100 000 msat) per hour: after one approval
 /// every further approval within the hour must be declined (reply flag 0).
 pub fn paylimit_policy(network: bitcoin::Network) -> lightning_signer::policy::simple_validator::SimplePolicy {
